@@ -265,7 +265,42 @@ pub fn minimise(replay: &Value, class: &str, scratch: &Path, budget: Duration) -
     let mut best = replay.clone();
     let Some(events) = replay.get("events").and_then(|e| e.as_array()).cloned() else { return best };
     let mut cur = events;
+    // Minimisation must not slip into a different, already known defect: histories keep the
+    // warm-up (two committed writes before the first session begins; finding D26).
+    fn warm(evs: &[Value]) -> bool {
+        let mut writes = 0;
+        for e in evs {
+            if e.get("Begin").is_some() {
+                return writes >= 2;
+            }
+            let t = e.to_string();
+            if (e.get("Auto").is_some() || e.get("Batch").is_some()) && (t.contains("\"CreateTable\"") || t.contains("\"Insert\"")) {
+                writes += 1;
+            }
+        }
+        true
+    }
+    let need_warm = warm(&cur);
+    let guards: Vec<String> = replay.get("guards").and_then(|g| serde_json::from_value(g.clone()).ok()).unwrap_or_default();
+    let is_sql = replay.get("engine").and_then(|e| e.as_str()).map(|e| e.starts_with("E1") || e.starts_with("E2")).unwrap_or(false);
+    let trips_guard = |evs: &Vec<Value>| -> bool {
+        if !is_sql || guards.is_empty() {
+            return false;
+        }
+        match serde_json::from_value::<Vec<crate::stmt::Event>>(Value::Array(evs.clone())) {
+            Ok(es) => crate::guards::first_violation(&es, &guards).is_some(),
+            Err(_) => true,
+        }
+    };
+    // only enforce guard preservation if the original respects its guards (reproducers of findings do not)
+    let enforce_guards = !trips_guard(&cur);
     let try_case = |evs: &Vec<Value>, base: &Value| -> bool {
+        if need_warm && !warm(evs) {
+            return false;
+        }
+        if enforce_guards && trips_guard(evs) {
+            return false;
+        }
         let mut c = base.clone();
         c["events"] = Value::Array(evs.clone());
         let p = scratch.join("cand.json");
@@ -399,6 +434,7 @@ pub fn nontrivial(prop: &str, c: &BTreeMap<String, u64>) -> bool {
         "C13" => g("vacuums") > 0 && g("state_checks") > 0,
         "C15" => g("ddl_in_session") > 0,
         "C16" => g("failed_statements_in_session") > 0,
+        "C17" => g("reads_nonempty_correct") > 0 && (g("reopens") + g("truncations") + g("appends_near_block_size")) > 0,
         "C01" => g("crash_points_after_an_ack") > 0,
         "C02" => g("crash_points") > 0 && (g("rollbacks") + g("session_drops") + g("sessions")) > 0,
         "C08" => g("nested_crash_points") > 0,
